@@ -4,7 +4,7 @@ CONSTANTS
   NInsts = 2
   Bodies = {}
   Cfgs = {"pmaxK"}
-  Muts = {"setmax", "limmember"}
+  Muts = {"setmax"}
   DescIds = {"d"}
   MaxBases = 2
   MaxMuts = 1
@@ -12,9 +12,10 @@ CONSTANTS
   Depth = 5
   RootP = {"new"}
   MixinP = {"props"}
-  DerivedP = {"props", "bare", "none"}
+  DerivedP = {"props", "bare"}
   DerivedC = {"method"}
   DerivedM = {}
+  DerivedW = {}
   MaxOverrides = 1
   MaxRoots = 2
 CONSTRAINT GBound
